@@ -92,7 +92,7 @@ Section ChainSem.
     | [], [] => c' = c
     | NLit x :: comps', v :: name' => v = x /\ chain_sem cf seen comps' name' c c'
     | NPat t :: comps', v :: name' =>
-        exists c1, tstep ufn t (if zmem t seen then [] else cf t) v c c1 /\ chain_sem cf (t :: seen) comps' name' c1 c'
+        exists c1, tstep ufn t (if (0 <=? t)%Z && zmem t seen then [] else cf t) v c c1 /\ chain_sem cf (t :: seen) comps' name' c1 c'
     | _, _ => False
     end.
 
@@ -113,10 +113,6 @@ Section ChainSem.
 End ChainSem.
 
 (* ---- well-formedness of the chains handed to the tree builder ---------------------------------------- *)
-(* a temporary tag names one position (the fixed compiler gives every inlined copy fresh numbers) *)
-Definition temps_positional (chains : list chain) : Prop :=
-  forall rc rc' i j t, In rc chains -> In rc' chains -> (t < 0)%Z -> pat_pos rc i t -> pat_pos rc' j t -> i = j.
-
 (* the merging key determines the edge: equal keys mean equal constraints and, for named patterns, equal tags *)
 Definition keys_faithful (chains : list chain) : Prop :=
   forall rc rc' t t' prev, In rc chains -> In rc' chains ->
@@ -125,10 +121,10 @@ Definition keys_faithful (chains : list chain) : Prop :=
     (((0 <= t)%Z \/ (0 <= t')%Z) -> t = t').
 
 Lemma pm_tag rc t prev : fst (fst (pattern_movement rc t prev)) = t.
-Proof. unfold pattern_movement. destruct (zmem t prev); reflexivity. Qed.
-Lemma pm_cons rc t prev : snd (fst (pattern_movement rc t prev)) = if zmem t prev then [] else cons_for rc t.
+Proof. unfold pattern_movement. destruct ((0 <=? t)%Z && zmem t prev); reflexivity. Qed.
+Lemma pm_cons rc t prev : snd (fst (pattern_movement rc t prev)) = if (0 <=? t)%Z && zmem t prev then [] else cons_for rc t.
 Proof.
-  unfold pattern_movement, cons_for. destruct (zmem t prev); [reflexivity|]. cbn. rewrite map_map. reflexivity.
+  unfold pattern_movement, cons_for. destruct ((0 <=? t)%Z && zmem t prev); [reflexivity|]. cbn. rewrite map_map. reflexivity.
 Qed.
 
 Lemma zmem_in t l : zmem t l = true <-> In t l.
@@ -163,35 +159,25 @@ Qed.
 (* ---- the invariant relating the tags of the path walked so far to each chain still in play ------------- *)
 Record Inv (ctx : list chain) (depth : nat) (prev : list Z) : Prop := {
   inv_a : forall rc i t, In rc ctx -> (i < depth)%nat -> pat_pos rc i t -> (0 <= t)%Z -> In t prev;
-  inv_b : forall rc t, In rc ctx -> In t prev -> (0 <= t)%Z -> exists i, (i < depth)%nat /\ pat_pos rc i t;
-  inv_c : forall rc t j, In rc ctx -> In t prev -> (t < 0)%Z -> (depth <= j)%nat -> ~ pat_pos rc j t
+  inv_b : forall rc t, In rc ctx -> In t prev -> (0 <= t)%Z -> exists i, (i < depth)%nat /\ pat_pos rc i t
 }.
 
 Section Gen.
   Variable ufn : ident -> option (bytes -> list (option bytes) -> res bool).
   Variable chains : list chain.
-  Hypothesis Htemps : temps_positional chains.
   Hypothesis Hkeys : keys_faithful chains.
 
   Lemma inv_zmem ctx depth prev rc t :
-    Inv ctx depth prev -> In rc ctx -> In rc chains -> pat_pos rc depth t ->
-    zmem t prev = zmem t (tags_before depth rc).
+    Inv ctx depth prev -> In rc ctx -> pat_pos rc depth t ->
+    ((0 <=? t)%Z && zmem t prev) = ((0 <=? t)%Z && zmem t (tags_before depth rc)).
   Proof.
-    intros HI Hin Hc Hp. destruct (Z.leb_spec 0 t) as [Hpos|Hneg].
-    - destruct (zmem t prev) eqn:E1, (zmem t (tags_before depth rc)) eqn:E2; try reflexivity.
-      + apply zmem_in in E1. destruct (inv_b _ _ _ HI rc t Hin E1 Hpos) as (i & Hi & Hpi).
-        assert (In t (tags_before depth rc)) by (apply in_tags_before; eauto).
-        apply zmem_in in H. congruence.
-      + apply zmem_in in E2. apply in_tags_before in E2. destruct E2 as (i & Hi & Hpi).
-        pose proof (inv_a _ _ _ HI rc i t Hin Hi Hpi Hpos) as H. apply zmem_in in H. congruence.
-    - assert (E1 : zmem t prev = false).
-      { destruct (zmem t prev) eqn:E; [|reflexivity]. apply zmem_in in E.
-        exfalso. apply (inv_c _ _ _ HI rc t depth Hin E Hneg (Nat.le_refl _) Hp). }
-      assert (E2 : zmem t (tags_before depth rc) = false).
-      { destruct (zmem t (tags_before depth rc)) eqn:E; [|reflexivity]. apply zmem_in in E.
-        apply in_tags_before in E. destruct E as (i & Hi & Hpi).
-        pose proof (Htemps rc rc i depth t Hc Hc Hneg Hpi Hp). lia. }
-      congruence.
+    intros HI Hin Hp. destruct (Z.leb_spec 0 t) as [Hpos|Hneg]; [|reflexivity]. cbn [andb].
+    destruct (zmem t prev) eqn:E1, (zmem t (tags_before depth rc)) eqn:E2; try reflexivity.
+    - apply zmem_in in E1. destruct (inv_b _ _ _ HI rc t Hin E1 Hpos) as (i & Hi & Hpi).
+      assert (In t (tags_before depth rc)) by (apply in_tags_before; eauto).
+      apply zmem_in in H. congruence.
+    - apply zmem_in in E2. apply in_tags_before in E2. destruct E2 as (i & Hi & Hpi).
+      pose proof (inv_a _ _ _ HI rc i t Hin Hi Hpi Hpos) as H. apply zmem_in in H. congruence.
   Qed.
 
   Lemma going_on_in depth ctx rc : In rc (going_on depth ctx) <-> In rc ctx /\ depth <> length (ch_name rc).
@@ -289,8 +275,6 @@ Section Gen.
       apply (inv_a _ _ _ HI rc i t); auto. lia.
     - intros rc t Hin Ht Hpos. apply v_group_in in Hin. destruct Hin as [Hin _]. apply going_on_in in Hin. destruct Hin as [Hin _].
       destruct (inv_b _ _ _ HI rc t Hin Ht Hpos) as (i & Hi & Hp). exists i. split; [lia | exact Hp].
-    - intros rc t j Hin Ht Hneg Hj. apply v_group_in in Hin. destruct Hin as [Hin _]. apply going_on_in in Hin. destruct Hin as [Hin _].
-      apply (inv_c _ _ _ HI rc t j); auto. lia.
   Qed.
 
   Lemma inv_pattern ctx depth prev key pm0 rest :
@@ -325,10 +309,6 @@ Section Gen.
       + destruct (Hkeys rc (snd pm0) t1 t0 prev (Hsub _ Hc) (Hsub _ Hc0)) as [_ He]; [congruence|].
         exists depth. split; [lia|]. rewrite <- He; [exact Hp1 | right; exact Hpos].
       + destruct (inv_b _ _ _ HI rc t Hc Ht Hpos) as (i & Hi & Hp). exists i. split; [lia | exact Hp].
-    - intros rc t j Hin Ht Hneg Hj Hp. destruct (Hmem rc Hin) as (t1 & Hc & Hp1 & Hk1).
-      destruct Ht as [<-|Ht].
-      + pose proof (Htemps (snd pm0) rc depth j t0 (Hsub _ Hc0) (Hsub _ Hc) Hneg Hp0 Hp). lia.
-      + apply (inv_c _ _ _ HI rc t j Hc Ht Hneg); [lia | exact Hp].
   Qed.
 
   (* tstep only looks at the sign of a temporary tag *)
@@ -398,7 +378,7 @@ Section Gen.
         destruct (Hkeys rc rc0 t1 t0 prev (Hsub _ Hr1) (Hsub _ Hr0)) as [Hcs Htag]; [congruence|].
         split; [exact Hr1|]. unfold chain_sem_from in *. rewrite (pat_at_skipn _ _ _ Hpa). cbn [chain_sem].
         exists c1. split.
-        * apply pat_at_pos in Hpa. rewrite <- (inv_zmem _ _ _ _ _ HI Hr1 (Hsub _ Hr1) Hpa).
+        * apply pat_at_pos in Hpa. rewrite <- (inv_zmem _ _ _ _ _ HI Hr1 Hpa).
           rewrite <- pm_cons, Hcs. apply (tstep_tag_irrel t1 t0); [exact Htag | exact Hstep].
         * apply pat_at_pos in Hpa. apply (chain_sem_ext ufn _ _ _ _ (tags_before_S_pat _ _ _ Hpa)). exact Hsem.
     - (* completeness *)
@@ -458,7 +438,7 @@ Section Gen.
           { unfold chain_sem_from. rewrite Es'. apply (chain_sem_ext ufn _ _ _ _ (tags_before_S_pat _ _ _ Hpp)). exact Hsem. }
           exists t'. split; [|exact Hend].
           eapply tp_pattern; [apply pin_of; exact Hps | | exact Htp].
-          rewrite <- (inv_zmem _ _ _ _ _ HI Hin (Hsub _ Hin) Hpp) in Hstep.
+          rewrite <- (inv_zmem _ _ _ _ _ HI Hin Hpp) in Hstep.
           rewrite <- pm_cons, Hcs in Hstep. apply (tstep_tag_irrel t1 t0); [exact Htag | exact Hstep].
   Qed.
 End Gen.
